@@ -59,3 +59,7 @@ prop('C05','exploration','typed filesystem snapshot diff between source and unpa
  'Generated trees with hostile names and metadata are packed and unpacked through catar, caidx+store (library and CLI, both digests), tar-stream input (GNU tar streams) and gnu-tar / mtree output; every entry is compared on path, type, permission and special bits, owner, symlink target, xattrs, device numbers, content and mtime (per path: the fields the format carries), and two packs must be byte-identical. Differences are classified (writer, entry type, field) and matched against known_findings.txt one class at a time.',
  'Runs as root on ext4. Recorded known findings: directory/symlink mtimes, mtime==0 sentinel, set-id bits in gnu-tar output (see known_findings.txt). tar output is read back with Go archive/tar and GNU tar.',
  'DESIGN.md 5/C05')
+prop('C18','exploration','before/after typed snapshot of a chroot jail around the destination while hostile archives are unpacked in a jailed child',
+ 'Archives produced by the harness\'s own encoder (names with .., /, absolute and nested paths, surplus GOODBYEs, symlink-then-entry orders, destinations holding symlinks to outside) are unpacked by UnTar and UnTarIndex in a child chroot()ed into a scratch jail with sentinels at every level; anything created, modified or touched outside the destination subtree is a violation regardless of the return value.',
+ 'The jail is a chroot (we are root); effects above the jail root cannot occur.',
+ 'DESIGN.md 5/C18')
